@@ -299,6 +299,11 @@ def run(ctx):
     for o in sub.obligations:
         if o.rule == "C05.R2":
             ctx.ob("C16.R7", o.where, o.ok, o.what, key=o.key, loc=o.loc, detail=o.detail)
+    # sizes of bit-level regions (macro unit arithmetic, shared with C10.R1/R2) and the build-from-None flags a lazy result depends on
+    # (LazyStruct._build asks obj.get(name), which is None for a lazy container: members must declare truthfully whether None is buildable)
+    from . import C10, C01
+    C10.check_macros(ctx, ("Bitwise", "Bytewise", "ByteSwapped", "BitsSwapped"), "C16.R7", "C16.R7", "C16.R7")
+    C01.derived_flag_formulas(ctx, "C16.R7")
     ctx.floor("C16.R7", 80)
 
     # ---------------------------------------------------------------- R4 clones
